@@ -2,9 +2,37 @@
 
 package main
 
-import "github.com/hashicorp/go-bexpr/grammar"
+import (
+	"reflect"
+	"strings"
 
-// installStepHook makes the parser report its step counter (grammar/verif_on.go, build tag verif).
+	"github.com/hashicorp/go-bexpr/grammar"
+)
+
+// the kinds of parsing expressions, numbered as in spec/Peg.tla (Code)
+var kindCode = map[string]uint64{"choiceExpr": 1, "seqExpr": 2, "actionExpr": 3, "labeledExpr": 4, "ruleRefExpr": 5, "litMatcher": 6, "charClassMatcher": 7,
+	"anyMatcher": 8, "andCodeExpr": 9, "notExpr": 10, "andExpr": 11, "zeroOrOneExpr": 12, "zeroOrMoreExpr": 13, "oneOrMoreExpr": 14}
+var codeOf = map[reflect.Type]uint64{}
+
+// installStepHook makes the parser report its steps (grammar/verif_on.go, build tag verif): the step counter, and a running hash
+// of (kind of expression, position) over the whole step sequence - the step trace that spec/Peg.tla computes for the same input.
 func installStepHook() {
-	grammar.VerifStep = func(cnt uint64, e any, off int) { stepCount = cnt }
+	grammar.VerifStep = func(cnt uint64, e any, off int) {
+		stepCount = cnt
+		t := reflect.TypeOf(e)
+		c, ok := codeOf[t]
+		if !ok {
+			name := t.String()
+			c = kindCode[name[strings.LastIndex(name, ".")+1:]]
+			if c == 0 {
+				c = 99
+			}
+			codeOf[t] = c
+		}
+		pos := uint64(off + 1)
+		if symAt != nil && off < len(symAt) {
+			pos = uint64(symAt[off])
+		}
+		stepHash = (stepHash*31 + c*131 + pos) % 16777213
+	}
 }
